@@ -13,6 +13,9 @@ use std::panic::{catch_unwind, AssertUnwindSafe};
 
 #[derive(Serialize, Deserialize, Clone, Debug)]
 pub struct Failure {
+    /// first index of the worker job that found it (history window for range replays)
+    #[serde(default)]
+    pub job_from: u64,
     pub idx: u64,
     pub gen_class: String,
     pub class: String,
@@ -165,6 +168,7 @@ impl Acc {
         *self.out.classes.entry(v.class.clone()).or_insert(0) += 1;
         if self.out.failures.len() < 4 {
             self.out.failures.push(Failure {
+                job_from: 0,
                 idx,
                 gen_class: gen_class.to_string(),
                 class: v.class.clone(),
@@ -399,6 +403,7 @@ pub fn run_job(job: &Job, progress: &dyn Fn(u64)) -> WorkerOut {
                 acc.out.failure_count += 1;
                 *acc.out.classes.entry(v.class.clone()).or_insert(0) += 1;
                 acc.out.failures.push(Failure {
+                    job_from: 0,
                     idx,
                     gen_class: "huge".into(),
                     class: v.class.clone(),
